@@ -68,7 +68,10 @@ def run_shard(ctx):
     seq = iter(range(ctx.shard, 4097, ctx.nshards))
     while not ctx.out_of_time():
         sep = rng.choice(SEP_CONFIGS)
-        cfg = mon.cfg_with(dec=sep[0], thou=sep[1])
+        # the number format settings (digits, zero-fraction removal, fraction rounding) must not influence a base conversion
+        digits, rm, rnd = rng.choice([(2, True, True), (2, True, True), (2, True, False), (0, False, True), (4, False, False), (3, True, False)])
+        cfg = mon.cfg_with(dec=sep[0], thou=sep[1], digits=digits, rm=rm, round=rnd)
+        res.count('number_config:rounding-%s' % ('on' if rnd else 'off'))
         items, meta = [], []
         for _ in range(150):
             r = rng.random()
@@ -95,6 +98,37 @@ def run_shard(ctx):
                     want_n = n
                     cls = 'to-base' if conn else 'to-base-no-connective'
                 want_base = tgt
+            elif r < 0.8:
+                # a based literal takes part in a chain of operations like any other number: 0xA / 4 * 2, also through a variable
+                if src == 10:
+                    src = rng.choice([16, 8, 2])
+                n = gen_int(rng, 20)
+                ops_ = rng.choice(['*/', '*/', '+-'])
+                val = float(n)
+                parts = [lit(n, src, rng)]
+                okc = True
+                for _k in range(rng.randint(2, 3)):
+                    op = rng.choice(ops_)
+                    if op == '/' and len(parts) > 1 and parts[-2] == '/':
+                        op = '*'            # 'a / b / c' may be a day/month/year date (C02, C09)
+                    form = rng.random()
+                    m = rng.choice([2, 3, 4, 5, 7, 8, 10, 16]) if form < 0.6 else gen_int(rng, 10) + 1
+                    if form < 0.8:
+                        mt, mv = lit(m, rng.choice([10, 10, 16, 8, 2]), rng), float(m)
+                    else:
+                        fr = rng.choice(['5', '25', '75', '125'])
+                        mt, mv = render_literal('%d.%s' % (m, fr), sep), float('%d.%s' % (m, fr))
+                    val = {'*': val * mv, '/': val / mv, '+': val + mv, '-': val - mv}[op]
+                    if val < 0:
+                        okc = False
+                    parts += [op, mt]
+                if not okc:
+                    continue
+                if rng.random() < 0.4:
+                    text = 'zq = %s\nzq %s' % (' '.join(parts[:3]), ' '.join(parts[3:]))
+                else:
+                    text = ' '.join(parts)
+                want_n, want_base, cls = val, src, 'arith-chain'
             else:
                 op = rng.choice('+-*')
                 if src == 10:
@@ -112,7 +146,7 @@ def run_shard(ctx):
         rs = mon.run_lines(drv, cfg, items)
         second, second_meta = [], []
         for (text, want_n, want_base, cls), r in zip(meta, rs):
-            slot = mon.slot0(r)
+            slot = mon.last_slot(r) if '\n' in text else mon.slot0(r)
             res.cases += 1
             res.count('class:' + cls)
             res.distinct.add(sep, text)
@@ -129,8 +163,10 @@ def run_shard(ctx):
                 else:
                     out = slot['out']
                     shown_int = int(wantf)
-                    if want_base == 10:
-                        why = check_print(wantf, out, sep, 2, True, True)
+                    if wantf != shown_int and cls == 'arith-chain':
+                        res.count('fractional_based_results_print_not_judged')
+                    elif want_base == 10:
+                        why = check_print(wantf, out, sep, digits, rm, rnd)
                         if why:
                             problem = 'prints %r: %s' % (out, why)
                     else:
@@ -146,6 +182,8 @@ def run_shard(ctx):
                     res.sample({'separators': sep, 'text': text, 'printed': slot['out']})
                 continue
             big = 'big' if want_n >= 2**31 else 'small'
+            if not rnd:
+                big += ':number-rounding-off'
             res.violation('base:%s:%s:%s' % (cls, TYPE_OF[want_base], big), '%r: %s' % (text, problem),
                           {'config': cfg, 'lang': 'en', 'text': text, 'expected_integer': want_n, 'observed': mon.describe(slot),
                            'ops': mon.gh.config_ops(cfg) + [{'op': 'execute', 'lang': 'en', 'text': text}]})
